@@ -86,16 +86,12 @@ func (this *CosmosHandler) MakeDepositProposal(service *native.NativeService) (*
 		return nil, fmt.Errorf("Cosmos MakeDepositProposal, unmarshal proof err: %v", err)
 	}
 	prt := ProofRuntime()
-	if len(proofValue.Kp) != 0 {
-		err = prt.VerifyValue(&proof, myHeader.Header.AppHash, proofValue.Kp, proofValue.Value)
-		if err != nil {
-			return nil, fmt.Errorf("Cosmos MakeDepositProposal, proof error: %s", err)
-		}
-	} else {
-		err = prt.VerifyAbsence(&proof, myHeader.Header.AppHash, string(proofValue.Value))
-		if err != nil {
-			return nil, fmt.Errorf("Cosmos MakeDepositProposal, proof error: %s", err)
-		}
+	if len(proofValue.Kp) == 0 {
+		return nil, fmt.Errorf("Cosmos MakeDepositProposal, Kp is nil")
+	}
+	err = prt.VerifyValue(&proof, myHeader.Header.AppHash, proofValue.Kp, proofValue.Value)
+	if err != nil {
+		return nil, fmt.Errorf("Cosmos MakeDepositProposal, proof error: %s", err)
 	}
 	data := common.NewZeroCopySource(proofValue.Value)
 	txParam := new(scom.MakeTxParam)
